@@ -13,7 +13,7 @@ RULE = ("histories of provider messages fed to the real SelfManaged receiver (mD
         "recording actor in the agent's place, an in-memory Remoter as the network): handshake from a peer, "
         "member list, RemoteUnreachableEvent broadcast on the engine (turned into memberLeave by the provider's own "
         "event child); exhaustive over a reduced universe (2 peers; alphabet: 2 handshakes, a handshake under a "
-        "second address, a list, the empty list, reports for both peers' addresses and for an address nobody has; "
+        "second address, a list (thorough: also the empty list), reports for both peers' addresses and for an address nobody has; "
         "all histories up to length 3, 4 in the thorough tier), then random histories (<= 8 messages) over 4 peers "
         "with duplicate list entries, known ids under another address, reports for members, departed members, "
         "never-seen addresses, repeats and the node's own address. Observation at start-up and after each message: "
@@ -72,14 +72,16 @@ class Provider(Part):
         self_m = mem(0, [0])
         # ---- exhaustive, reduced universe
         p1, p2, p1b = mem(1, [1]), mem(2, []), mem(1, [1], host=11)
-        alpha = [["hs", p1, 1], ["hs", p2, 2], ["hs", p1b, 11], ["ms", [p1, p2, p1]], ["ms", []],
+        alpha = [["hs", p1, 1], ["hs", p2, 2], ["hs", p1b, 11], ["ms", [p1, p2, p1]],
                  ["leave", 1], ["leave", 2], ["leave", 9]]
+        if tier != "quick":
+            alpha.append(["ms", []])
         maxlen = 3 if tier == "quick" else 4
         for n in range(1, maxlen + 1):
             for combo in itertools.product(range(len(alpha)), repeat=n):
                 cases.append({"input": {"self": self_m, "hist": [alpha[c] for c in combo]}, "class": "exhaustive"})
         # ---- random
-        nrand = 300 if tier == "quick" else 6000
+        nrand = 250 if tier == "quick" else 6000
         for _ in range(nrand):
             sk = sorted(rng.sample(range(3), rng.randint(0, 3)))
             self_r = mem(0, sk)
